@@ -10,20 +10,7 @@ Definition b16 : list N := map N.of_nat (seq 16 16).
 Definition num (z : Z) (d : option nat) : iarg := mkI (to_bits (of_Z z)) d.
 Definition vnum (z : Z) (d : option nat) : varg := mkV false (to_bits (of_Z z)) d.
 
-(* C17-N8: new BigInt64Array(buf,0,2).fill(1, {valueOf(){detach(); return 0}}): both readings end in a
-   TypeError, but in goja's order of coercions the buffer has been detached before *)
 Definition st_n8 : state := mkSt [mkBuf b16 false] [mkView 0 0 2 BigInt64] [].
-Definition op_n8 : op := OFill 0 (vnum 1 None) (Some (num 0 (Some 0%nat))) None.
-Lemma fill_order_refuted :
-  snd (fst (step MS st_n8 op_n8)) = RErr TypeError /\ snd (fst (step MI st_n8 op_n8)) = RErr TypeError /\
-  is_det (fst (fst (step MS st_n8 op_n8))) 0%nat = false /\ is_det (fst (fst (step MI st_n8 op_n8))) 0%nat = true.
-Proof. vm_compute. repeat split; reflexivity. Qed.
-
-(* C17-N9: new BigInt64Array(buf,0,2)[1.5] = 1 *)
-Lemma nonindex_key_refuted :
-  snd (fst (step MS st_n8 (OSet 0 KNonInt (vnum 1 None)))) = RErr TypeError /\
-  snd (fst (step MI st_n8 (OSet 0 KNonInt (vnum 1 None)))) = RUndef.
-Proof. vm_compute. split; reflexivity. Qed.
 
 (* ------------------------------------------------------------------ little-endian codec *)
 Lemma le_val_le_bytes : forall n z, le_val (le_bytes n z) = z mod 2 ^ (8 * Z.of_nat n).
